@@ -89,7 +89,7 @@ def check_family(chk, F, cls, header, entry_names, swap_name, kept, exchanged, s
                     return ['DELEGATE:' + n]
             return []
         ps = paths.enumerate_paths(f, cl, loop_mode='01', keep_conds=True, cap=20000)
-        bad_swap = bad_ret = bad_case = None
+        bad_swap = bad_ret = bad_case = bad_order = None
         for p in ps:
             if p.end == 'throw':
                 continue
@@ -126,6 +126,14 @@ def check_family(chk, F, cls, header, entry_names, swap_name, kept, exchanged, s
                 bad_ret = (p, 'returns %s, neither %s nor %s' % (rv, exchanged, kept))
             if trs and len(signs) == 1 and sign_case(trs[0][3:].split('::')[-1]) != signs[0] and bad_case is None:
                 bad_case = (p, 'columns have signs %s but %s is applied' % (signs[0], trs[0][3:]))
+            # a mixed-sign transposition is not symmetric in the two positions: when no barcode is stored it finds
+            # the negative cell by reading R at one position (_get_birth), so it runs before the columns are exchanged
+            if cls == 'RU_vine_swap' and trs and 'SWAP' in tags:
+                tn = trs[0][3:]
+                if 'positive_negative' in tn or 'negative_positive' in tn:
+                    if tags.index('SWAP') < tags.index(trs[0]) and bad_order is None:
+                        bad_order = (p, '%s runs after %s: without stored barcode it reads the pivot of the column '
+                                     'that now holds the other cell' % (tn, swap_name))
 
         def descr(b):
             p, msg = b
@@ -137,6 +145,10 @@ def check_family(chk, F, cls, header, entry_names, swap_name, kept, exchanged, s
         chk.ob('E2n-truthful', '%s::%s returns "exchanged" iff exactly one bar transposition ran' % (cls, name),
                where, bad_ret is None, '' if bad_ret is None else descr(bad_ret),
                key='E2n|%s::%s|return' % (cls, name))
+        if cls == 'RU_vine_swap':
+            chk.ob('E2-transpose-first', '%s::%s runs a mixed-sign transposition before it exchanges the columns'
+                   % (cls, name), where, bad_order is None, '' if bad_order is None else descr(bad_order),
+                   key='E2|%s::%s|transpose-first' % (cls, name))
         chk.ob('E7-case', '%s::%s applies the transposition / handler of the matching sign case' % (cls, name),
                where, bad_case is None, '' if bad_case is None else descr(bad_case),
                key='E7|%s::%s|case' % (cls, name))
